@@ -40,6 +40,11 @@ Pairing part (model `Req/Pool/Pairing.lean`)
                           every request written on it has had its response fully consumed, none is
                           expected, and the read loop is back at its top.
 * `one_request_at_a_time` : `numExpectedResponses ≤ 1`.
+* `own_response_h1`     : with the peer's byte stream as a labelled queue: every response head
+                          delivered to request `r` is the peer's answer to `r` (unless unsolicited
+                          bytes got in front of an awaited head — `tainted`).
+* `unsolicited_never_delivered` : bytes nobody asked for, found by the read loop on an idle
+                          connection, close it; they reach no caller.
 
 Monitor part (`Req/Pool/Monitor.lean`, the judge of the concurrent lanes)
 * `monitor_accepts_only_own_responses` : in a history the monitor accepts, every caller that
@@ -253,17 +258,66 @@ theorem one_request_at_a_time (ops : List Req.Pool.Pairing.Op) :
     (Req.Pool.Pairing.run {} ops).numExpected ≤ 1 := by
   exact (PInv_run {} ops PInv_init).neLe
 
+/-- **own_response_h1** — whose response a caller gets.  The peer's byte stream is modelled as a
+queue of complete responses, each labelled with the request the peer meant it for (`none` =
+unsolicited bytes: a duplicated response, a response nobody asked for, garbage).  Unless the
+connection is `tainted` (unsolicited bytes arrived in front of an awaited response head, or the
+pool handed the connection out before the read loop saw them — nothing a client can repair),
+every response head delivered to request `r` is the peer's answer to `r`. -/
+theorem own_response_h1 (ops : List Req.Pool.Pairing.Op)
+    (hclean : (Req.Pool.Pairing.run {} ops).tainted = false) (r : Nat) (l : Option Nat)
+    (h : (r, l) ∈ (Req.Pool.Pairing.run {} ops).got) : l = some r :=
+  (Own_run {} ops PInv_init Own_init hclean).1 (r, l) h
+
+/-- **unsolicited_never_delivered** — bytes nobody asked for that the read loop finds on an idle
+connection (`Peek` returns with `numExpectedResponses == 0`) close the connection: whatever
+happens afterwards, no request is ever started on it again and nothing more is delivered. -/
+theorem unsolicited_never_delivered (ops more : List Req.Pool.Pairing.Op)
+    (hidle : (Req.Pool.Pairing.run {} ops).phase = .peeking ∧ (Req.Pool.Pairing.run {} ops).numExpected = 0)
+    (hbytes : (Req.Pool.Pairing.run {} ops).wire ≠ []) :
+    let s := Req.Pool.Pairing.step (Req.Pool.Pairing.run {} ops) .peekIdle
+    s.avail = false ∧ (Req.Pool.Pairing.run s more).got = (Req.Pool.Pairing.run {} ops).got ∧
+      (Req.Pool.Pairing.run s more).started = (Req.Pool.Pairing.run {} ops).started := by
+  have hstep : (Req.Pool.Pairing.step (Req.Pool.Pairing.run {} ops) .peekIdle).phase = .closed ∧
+      (Req.Pool.Pairing.step (Req.Pool.Pairing.run {} ops) .peekIdle).avail = false ∧
+      (Req.Pool.Pairing.step (Req.Pool.Pairing.run {} ops) .peekIdle).got = (Req.Pool.Pairing.run {} ops).got ∧
+      (Req.Pool.Pairing.step (Req.Pool.Pairing.run {} ops) .peekIdle).started = (Req.Pool.Pairing.run {} ops).started := by
+    have hw : (Req.Pool.Pairing.run {} ops).wire.isEmpty = false := by
+      cases hwl : (Req.Pool.Pairing.run {} ops).wire with
+      | nil => exact absurd hwl hbytes
+      | cons _ _ => rfl
+    simp [Req.Pool.Pairing.step, hidle.1, hidle.2, hw]
+  obtain ⟨h1, h2, h3, h4⟩ := hstep
+  obtain ⟨_, c2, c3⟩ := closed_run _ more h1
+  exact ⟨h2, by rw [c2, h3], by rw [c3, h4]⟩
+
+/-- Non-vacuity: a peer that answers request 10 and then repeats its answer while the connection
+is idle.  When the read loop sees the extra bytes first, the connection is closed and request 11
+(ignored here: the pool dials a new connection) gets nothing from it; when the pool wins the
+race the connection is `tainted` and request 11 is given the unsolicited bytes. -/
+example :
+    let s := Req.Pool.Pairing.run {}
+      [.start 10, .peerAnswer, .readHead false true true true, .peerExtra, .peekIdle, .start 11,
+       .readHead false true true true]
+    s.got = [(10, some 10)] ∧ s.tainted = false ∧ s.phase = .closed ∧ s.started = [10] := by decide
+example :
+    let s := Req.Pool.Pairing.run {}
+      [.start 10, .peerAnswer, .readHead false true true true, .peerExtra, .start 11,
+       .readHead false true true true]
+    s.got = [(11, none), (10, some 10)] ∧ s.tainted = true := by decide
+
 /-- Non-vacuity: two requests on one connection; the second is started only after the first
 body was read to EOF and the connection put back; both get their own response. -/
 example :
     let s := Req.Pool.Pairing.run {}
-      [.start 10, .readHead true true true true, .bodyDone true true true,
-       .start 11, .readHead false true true true]
-    s.pairs = [(11, 1), (10, 0)] ∧ s.avail = true ∧ s.consumed = 2 := by decide
+      [.start 10, .peerAnswer, .readHead true true true true, .bodyDone true true true,
+       .start 11, .peerAnswer, .readHead false true true true]
+    s.pairs = [(11, 1), (10, 0)] ∧ s.avail = true ∧ s.consumed = 2 ∧
+      s.got = [(11, some 11), (10, some 10)] := by decide
 /-- and a `start` while the first body is still unread is ignored (the pool never hands the
 connection out then). -/
 example :
-    (Req.Pool.Pairing.run {} [.start 10, .readHead true true true true, .start 11]).started = [10] := by
+    (Req.Pool.Pairing.run {} [.start 10, .peerAnswer, .readHead true true true true, .start 11]).started = [10] := by
   decide
 
 end Pairing
